@@ -14,8 +14,8 @@
 (***************************************************************************)
 EXTENDS Props, Json, IOUtils
 
-VARIABLES l, rep, saved
-tvars == <<st, cfg, resp, l, rep, saved>>
+VARIABLES l, rep, saved, adv
+tvars == <<st, cfg, resp, l, rep, saved, adv>>
 
 T == ndJsonDeserialize(IOEnv.VERIF_TRACE)
 
@@ -135,10 +135,11 @@ RespFromObs(o) ==
 
 -----------------------------------------------------------------------------
 
-MaxRep == 200
+MaxRep == 1000
+MaxAdv == 5       \* advisory entries are counted; only the first few are written out
 
 TraceInit ==
-  /\ l = 1 /\ rep = <<>> /\ saved = <<>>
+  /\ l = 1 /\ rep = <<>> /\ saved = <<>> /\ adv = 0
   /\ cfg = [modules |-> <<>>, whitelist |-> <<>>]
   /\ st = InitState([p \in Pids |-> NoUser])
   /\ resp = R0
@@ -163,8 +164,10 @@ StepLine(line) ==
               THEN FaultViolations(st, S2, cfg, e, RespFromObs(line.resp), r0)
                    \cup (PropViolations(st, S2, cfg, e, RespFromObs(line.resp)) \cap FaultTolerantClauses)
               ELSE PropViolations(st, S2, cfg, e, RespFromObs(line.resp))
-      add1 == IF d = {} THEN <<>>
-              ELSE <<[kind |-> IF e.fault > 0 THEN "faultmodel" ELSE "mismatch", l |-> l, act |-> e.act,
+      \* advisory: the whole diff of a faulted step (fault model), and the call protocol of a fault-free one
+      isAdv == d # {} /\ (e.fault > 0 \/ \A x \in d : x[1] = "resp.calls")
+      add1 == IF d = {} \/ (isAdv /\ adv >= MaxAdv) THEN <<>>
+              ELSE <<[kind |-> IF e.fault > 0 THEN "faultmodel" ELSE IF isAdv THEN "callprotocol" ELSE "mismatch", l |-> l, act |-> e.act,
                       fields |-> {x[1] : x \in d}, detail |-> ToString(d)]>>
       add2 == IF pv = {} THEN <<>>
               ELSE <<[kind |-> "property", l |-> l, act |-> e.act,
@@ -173,6 +176,7 @@ StepLine(line) ==
       /\ resp' = r.resp
       /\ cfg' = cfg
       /\ rep' = IF Len(rep) >= MaxRep THEN rep ELSE rep \o add1 \o add2
+      /\ adv' = IF isAdv THEN adv + 1 ELSE adv
       /\ saved' = saved
 
 TraceNext ==
@@ -183,14 +187,14 @@ TraceNext ==
        THEN /\ cfg' = CfgOf(line)
             /\ st' = FromObs(line.post, cfg', line.iss, {}, {})
             /\ resp' = R0
-            /\ rep' = rep
+            /\ rep' = rep /\ adv' = adv
             /\ saved' = <<>>
        ELSE IF line.kind = "save"       \* fork: push the current state
-       THEN /\ saved' = Append(saved, st) /\ UNCHANGED <<st, cfg, resp, rep>>
+       THEN /\ saved' = Append(saved, st) /\ UNCHANGED <<st, cfg, resp, rep, adv>>
        ELSE IF line.kind = "restore"    \* back to the innermost saved state (kept for further variants)
-       THEN /\ st' = saved[Len(saved)] /\ UNCHANGED <<cfg, resp, rep, saved>>
+       THEN /\ st' = saved[Len(saved)] /\ UNCHANGED <<cfg, resp, rep, saved, adv>>
        ELSE IF line.kind = "drop"       \* the innermost fork is finished
-       THEN /\ saved' = SubSeq(saved, 1, Len(saved) - 1) /\ UNCHANGED <<st, cfg, resp, rep>>
+       THEN /\ saved' = SubSeq(saved, 1, Len(saved) - 1) /\ UNCHANGED <<st, cfg, resp, rep, adv>>
        ELSE StepLine(line)
 
 TraceSpec == TraceInit /\ [][TraceNext]_tvars
@@ -202,5 +206,5 @@ WriteReport ==
         <<[kind |-> "summary", lines |-> Len(T), consumed |-> TLCGet("stats").diameter - 1]>>)
 
 ReportInv == Finished => ndJsonSerialize(IOEnv.VERIF_REPORT,
-                 <<[kind |-> "summary", lines |-> Len(T), consumed |-> l - 1, reports |-> Len(rep)]>> \o rep)
+                 <<[kind |-> "summary", lines |-> Len(T), consumed |-> l - 1, reports |-> Len(rep), advisory |-> adv]>> \o rep)
 =============================================================================
